@@ -76,6 +76,19 @@ FilesC11 == {
 CallsC11 == {Mk("execve", "p_norm", "a_huge", "e_one"), Mk("execv", "p_norm", "a_one", "e_none"),
              Mk("execve", "p_long", "a_null", "e_null"), Mk("execv", "p_norm", "a_two", "e_none")}
 ResultsFail == {"ENOENT"}
+(* C04: every syslog facility x level; large and binary messages at every stream / datagram sink *)
+Facilities == {"auth", "authpriv", "cron", "daemon", "ftp", "kern", "local0", "local1", "local2", "local3", "local4", "local5", "local6", "local7",
+               "lpr", "mail", "news", "syslog", "user", "uucp"}
+Levels == {"emerg", "alert", "crit", "err", "warning", "notice", "info", "debug"}
+FilesSyslog == {[D EXCEPT !.fmt = "cmd", !.out = "devlog", !.fac = f, !.lvl = l] : f \in Facilities, l \in Levels}
+FilesBig == {[D EXCEPT !.fmt = "cmd", !.out = o, !.dsmax = "max", !.logmax = "max"] : o \in {"file", "socket", "devlog", "stdout", "stderr"}}
+CallsBig == {Mk("execve", "p_norm", a, "e_one") : a \in {"a_100k", "a_bytes", "a_4095", "a_4096", "a_4097"}}
+CallOne == {Mk("execv", "p_norm", "a_two", "e_none")}
+(* C01: every errno value *)
+ResultsErrno == {"E1", "E2", "E3", "E4", "E5", "E6", "E7", "E8", "E9", "E10", "E11", "E12", "E13", "E14", "E15", "E16", "E17", "E18", "E19", "E20", "E21", "E22", "E23", "E24",
+                 "E25", "E26", "E27", "E28", "E29", "E30", "E31", "E32", "E33", "E34", "E35", "E36", "E37", "E38", "E39", "E40", "E61", "E62", "E71", "E75", "E84", "E95", "E98",
+                 "E104", "E110", "E111", "E113", "E122", "E125", "E130", "E131", "E133"}
+FilesTwo == {[D EXCEPT !.fmt = "cmdfile", !.out = "file"], [D EXCEPT !.fmt = "cmdfile", !.out = "file", !.chain = "drop"]}
 ResultsAll == {"replaced", "ENOENT", "EACCES", "E2BIG", "ENOEXEC", "ENOMEM", "ETXTBSY"}
 ResultsSmall == {"replaced", "ENOENT"}
 NoDefects == {}
